@@ -34,7 +34,9 @@ RULE = ("random histories over all modelled entity kinds (blocks, groups, arrays
         "taken through fresh objects after every operation. A quarter of the histories start with a two-handle prelude (a link list "
         "emptied through one object and refilled through another that had cached it). At every reopen, in addition to the walk, "
         "every public property and argument-free reader method of every entity, dimension, feature and property (found by "
-        "reflection over the classes) is evaluated before closing and after reopening and must answer the same.")
+        "reflection over the classes) is evaluated before closing and after reopening and must answer the same. Numeric "
+        "attributes (sampling interval, offset, expansion origin, uncertainty) are assigned sequences of ints, floats and numpy "
+        "scalars and read back through fresh objects after every assignment and after reopening.")
 
 
 HEADER_ATTR = {"AType": 1, "ADefinition": 2}      # offset of the attribute after the id in an entity's walk header
@@ -84,6 +86,23 @@ def stale_link_handle(v, h):
 def run(ctx):
     st = storeprop.run(ctx, ID, THEOREMS, "Props/C02.v", PROFILE, (28, 40), 100, 900, predicate, RULE,
                        known_matchers={"stale_link_handle": stale_link_handle}, extra_targets=["Pure/TableCheck.vo"])
+    # ---- numeric attributes (interval, offset, expansion origin, uncertainty): last write wins whatever Python type the
+    # successive values have; model-free, read back through fresh objects and after reopening
+    thorough = ctx.tier == "thorough"
+    recs = ctx.run_impl("impl_numattr.py", {"seed": ctx.seed, "n": 60 if thorough else 12, "len": 14})
+    bad = [r for r in recs if "error" in r or r.get("read") != r["value"]]
+    if bad and not ctx.violations:
+        k = recs.index(bad[0])
+        hist = [x for x in recs[max(0, k - 14):k + 1] if x["attribute"] == bad[0]["attribute"]]
+        rp = ctx.write_replay("%s-numattr-seed%d.json" % (ID, ctx.seed), {
+            "property": ID, "kind": "the value read back is not the last value written", "input": {"assignments": hist},
+            "observed": bad[0], "count": len(bad)})
+        ctx.violation("%d numeric attribute read-backs violate C02, e.g. %s assigned %s reads %r%s" % (
+            len(bad), bad[0]["attribute"], bad[0]["assigned"], bad[0].get("read", bad[0].get("error")),
+            " after reopening" if bad[0].get("after_reopen") else ""), rp)
+    ctx.coverage["numeric_attribute_readbacks"] = len(recs)
+    ctx.coverage["numeric_attribute_failures"] = len(bad)
+    ctx.coverage["evaluations"] += len(recs)
     from props import c16
     ctx.coverage.update(c16.frame_stage(ctx, st, 600 if ctx.tier == "thorough" else 90, "last write wins independently of the objects used, and reopening shows it"))
     return st
